@@ -27,7 +27,8 @@ from harness.c15 import gen
 HERE = os.path.dirname(os.path.abspath(__file__))
 MODEL_FILES = ["MypyVerif/Model/CSem.lean", "MypyVerif/Model/Tagged.lean", "MypyVerif/Model/FixedWidth.lean",
                "MypyVerif/Proofs/CFast.lean", "MypyVerif/Proofs/CFastW.lean", "MypyVerif/Proofs/FixedWidth.lean",
-               "MypyVerif/Gen/CFast.lean"]
+               "MypyVerif/Proofs/FloatConv.lean", "MypyVerif/Model/FloatConv.lean", "MypyVerif/Gen/CFast.lean",
+               "MypyVerif/Gen/IrOps.lean"]
 WIDTH = {"i64": 64, "i32": 32, "i16": 16, "u8": 8}
 RANGES = gen.RANGES
 TAG_MIN, TAG_MAX = -2 ** 62, 2 ** 62 - 1
@@ -676,6 +677,7 @@ def main(ctx: Ctx) -> None:
     builds = {opt: ex.submit(build_harness, ctx, opt, src) for opt in ("0", "3")}
 
     # 1. translator + theorems
+    from translate import irops
     translated = True
     try:
         cfast.main()
@@ -684,6 +686,15 @@ def main(ctx: Ctx) -> None:
         translated = False
         ctx.broken_ties.append(f"translate/cfast.py rejects the current sources (fail closed): {e}")
         inv = json.load(open(cfast.OUT_JSON)) if os.path.exists(cfast.OUT_JSON) else None
+    if translated:
+        try:
+            irops.main()
+            irinv = json.load(open(irops.OUT_JSON))
+            ctx.coverage["ir_functions_translated"] = len(irinv["functions"])
+            ctx.coverage["ir_functions_not_translated"] = len(irinv["skipped"])
+        except cfast.Unsupported as e:
+            translated = False
+            ctx.broken_ties.append(f"translate/irops.py rejects the IR of the harness functions (fail closed): {e}")
     proved = False
     if translated:
         proved = ctx.prove("MypyVerif.Props.C15", MODEL_FILES)
